@@ -19,6 +19,11 @@ import zipfile
 
 import numpy as np
 
+import concurrent.futures as _cf
+
+from sim.kernel import Sim, make_policy, StepCap, Deadlock
+from sim.executors import (SimPoolBase, SimThreadPool, SimProcessPool,
+                           sim_as_completed, sim_wait)
 from sim.runner import new_result, scratch_root
 from sim.seams import patched, import_typhon, fresh_dir
 from sim import digest_of
@@ -320,6 +325,18 @@ def run_one(tape, only=None):
         open(os.path.join(cache, (name + ".dem").upper()), "wb").close()
 
     seams = [(tmod, "_data_path", cache)]
+    # typhon.topography has no concurrency today. Should it ever fetch tiles
+    # in a pool, the pool must be the simulator's: route the usual names
+    # (module-level imports in topography and concurrent.futures itself).
+    for mod in (tmod, _cf):
+        for name, fake in (("ThreadPoolExecutor", SimThreadPool),
+                           ("ProcessPoolExecutor", SimProcessPool),
+                           ("as_completed", sim_as_completed), ("wait", sim_wait)):
+            if mod is _cf or hasattr(mod, name):
+                seams.append((mod, name, fake))
+    policy = make_policy(tape, allow=("random", "sticky"))
+    sim = Sim(tape, policy, step_cap=20000)
+    SimPoolBase.sim, SimPoolBase.registry = sim, []
     if w["config"] == "fast":
         seams += [(SRTM30, "get_tile", staticmethod(fast_get_tile)),
                   (SRTM30, "download_tile", staticmethod(fast_download))]
@@ -332,24 +349,32 @@ def run_one(tape, only=None):
                 name = list(_T["tiles"])[12]
                 with zipfile.ZipFile(io.BytesIO(io_tile_bytes(name))) as z:
                     z.extractall(cache)
-            had_fault = False
-            for oi, o in enumerate(w["ops"]):
-                kind = o["op"]
-                present_before = set(os.listdir(cache))
-                log_before = len(net.log) + len(fast_log)
-                if w["config"] == "io":
-                    net.mode, net.k = o["net"], o["net_k"]
-                try:
-                    nt = _do_op(o, w, V, probe, SRTM30, cache, net, fast_log,
-                                present_before, log_before, faults, had_fault, outcomes)
-                    nontrivial += nt
-                except Exception as e:  # noqa: harness must see everything
-                    raise
-                if w["config"] == "io" and net.log[log_before:] and \
-                        net.log[-1][1] != "ok":
-                    had_fault = True
-                net.mode = "ok"
+            state = {"had_fault": False, "nontrivial": 0}
+
+            def main():
+                for oi, o in enumerate(w["ops"]):
+                    present_before = set(os.listdir(cache))
+                    log_before = len(net.log) + len(fast_log)
+                    if w["config"] == "io":
+                        net.mode, net.k = o["net"], o["net_k"]
+                    state["nontrivial"] += _do_op(
+                        o, w, V, probe, SRTM30, cache, net, fast_log, present_before,
+                        log_before, faults, state["had_fault"], outcomes)
+                    if w["config"] == "io" and net.log[log_before:] and \
+                            net.log[-1][1] != "ok":
+                        state["had_fault"] = True
+                    net.mode = "ok"
+
+            try:
+                sim.run(main)
+            except StepCap as e:
+                V.append(_viol("C20/no-termination", str(e)))
+            except Deadlock as e:
+                V.append(_viol("C20/deadlock", str(e)))
+            nontrivial = state["nontrivial"]
     finally:
+        SimPoolBase.sim = None
+        SimPoolBase.registry = None
         shutil.rmtree(root, ignore_errors=True)
     seen, uniq = set(), []
     for v in V:
@@ -473,6 +498,13 @@ def _do_op(o, w, V, probe, SRTM30, cache, net, fast_log, present_before,
         outcomes.append(("tile", name, bool(ok)))
         if not ok:
             V.append(_viol("C20/get_tile/content", f"{name}: wrong tile content"))
+        # the caller may do what it likes with the array it got (e.g. mask the
+        # ocean in place): later requests must still see the stored pixels
+        try:
+            out[...] = -777
+            probe("caller_edits_returned_tile")
+        except (ValueError, TypeError):
+            pass
         return nontrivial
     # ---- geometry of the block -----------------------------------------------------
     lats, lons, z = out
